@@ -305,6 +305,77 @@ def check_build_partial_passes_mask(run, funcs, pid):
             run.suspect.append('%s Voronoi::build does not pass mask = None' % pid)
 
 
+def check_mask_flow(run, funcs, pid):
+    """Voronoi::build_internal hands the caller's mask and generators to build_voronoi_cells as they are (no entry added, dropped or rewritten
+    on the way - whatever the generator positions, also on walls): 3 generators with symbolic positions and mask bits"""
+    name = engine.find_fn(funcs, r'voronoi::<impl at src/voronoi.rs:\d+:\d+: \d+:\d+>::build_internal$')
+    bits = [z3.Bool('mf%d' % k) for k in range(3)]
+    gens = [rvec('mg%d' % k) for k in range(3)]
+    anchor, width = rvec('anchor'), rvec('width')
+
+    def stop_bvc(i, st, a, c):
+        st.events.append(('build_voronoi_cells', list(a)))
+        i.stopped.append(st)
+        return []
+    for dim in FR.DIMS:
+        ov = {'build_rtree': lambda i, st, a, c: Opaque('rtree'), 'Voronoi::build_voronoi_cells': stop_bvc}
+        interp = engine.new_interp(funcs, overrides=ov, max_paths=4000)
+        interp.stopped = []
+        st = State()
+        st.heap[1] = Agg('array', gens)
+        st.heap[2] = Agg('array', bits)
+        st.pc.extend([to_z3(w) > 0 for w in width.items])
+        try:
+            interp.exec_fn(st, name, [Ref(('H', 1)), some(Ref(('H', 2))), anchor, width, FR.dimv(dim), z3.Bool('periodic')], {})
+        except Unsupported as e:
+            if not interp.stopped:
+                raise
+        run.add_functions(interp, funcs)
+        if not interp.stopped:
+            raise Inconclusive('build_internal: build_voronoi_cells not reached')
+        for k, s in enumerate(interp.stopped):
+            a = [e for e in s.events if e[0] == 'build_voronoi_cells'][-1][1]
+            g_arg, m_arg = a[0], a[2]
+            ok_g = same_ref(g_arg, Ref(('H', 1)))
+            conds = []
+            ok_m = False
+            if isinstance(m_arg, Var) and m_arg.name == 'Some':
+                r = m_arg.items[0]
+                if same_ref(r, Ref(('H', 2))):
+                    ok_m = True
+                else:
+                    try:
+                        v = interp.deref_read(s, r)
+                        items = list(v.items)
+                        if isinstance(r, Ref) and r.win is not None:
+                            items = items[r.win[0]:r.win[0] + r.win[1]]
+                        if len(items) == 3:
+                            ok_m = True
+                            conds = [to_z3(x) == b if is_z3(x) else (b if x else z3.Not(b)) for x, b in zip(items, bits)]
+                    except Exception:
+                        ok_m = False
+            if ok_g and ok_m and not conds:
+                run.obligations.append({'name': '%s build_internal[%s] path %d: build_voronoi_cells receives the caller\'s generators and mask unchanged' % (pid, dim, k),
+                                        'expect': 'unsat', 'verdict': 'unsat', 'solver': 'structural (references compared)', 'solver_s': 0.0})
+                continue
+            goal = z3.And([z3.BoolVal(ok_g and ok_m)] + conds)
+            vv, m = run.prove('%s build_internal[%s] path %d: the mask that reaches build_voronoi_cells equals the caller\'s mask entry by entry' % (pid, dim, k), pcs(s), z3.Not(goal),
+                              timeout=30, on_sat='caller')
+            if vv == 'sat':
+                from . import oracle as OR
+                d_ = {'OneD': 1, 'TwoD': 2, 'ThreeD': 3}[dim]
+                mask = [bool(engine.model_value(m, b)) for b in bits]
+                what = '%s build_internal[%s]: the mask is altered before the cells are built (caller\'s mask %r)' % (pid, dim, mask)
+                extra = []
+                for per in (False, True):
+                    for mk in ([True, True, True], [True, False, True], mask):
+                        extra += OR.wall_scenarios(d_, per, mask=mk)
+                if not OR.confirm_family(pid, run, what, d_, False, mask, (0, 1), pids=('C07', 'C12', 'C03'), extra=extra):
+                    run.suspect.append(what + ' - no public-API scenario (also generators on walls) shows a difference')
+                return
+    run.bound('mask flow through build_internal: 3 generators with symbolic positions, symbolic mask bits, symbolic box')
+
+
 def check_partial_mask_native(p, profile='debug'):
     mask = p['mask']
     locs = [(0.2, 0.3, 0.5), (0.5, 0.6, 0.4), (0.8, 0.4, 0.6)]
